@@ -1,5 +1,5 @@
 (* C02 — Reconciliation converges to exactly the desired pods and then goes quiet.  Statements only. *)
-From ASTS Require Import Base Slots Names World Reconcile ReconcileCheck PlanProofs ReconcileProofs ConvergeProofs Env TerminationProofs QuietProofs CounterProofs ConvergedStatus TerminationEnv RoundExec RoundCheck RoundLift RoundChain RoundRevs RoundExample ExampleWorld.
+From ASTS Require Import Base Slots Names World Reconcile ReconcileCheck PlanProofs ReconcileProofs ConvergeProofs Env TerminationProofs QuietProofs CounterProofs ConvergedStatus TerminationEnv RoundExec RoundCheck RoundLift RoundChain RoundRevs RoundExample ExampleWorld SortFilter RoundTrunc TruncExample.
 
 (* pods_converged s upd cnt slots pods (ConvergeProofs.v): every desired ordinal holds a pod that is created,
    not failed/succeeded, Running and Ready, not terminating, with identity and storage in order, and — when the
@@ -255,6 +255,103 @@ Theorem C02_full_model_stored_status :
 Proof. exact full_model_stored_status. Qed.
 Print Assumptions C02_full_model_stored_status.
 
+(* (3j) WITHOUT the bound on the revision list (RoundTrunc.v, SortFilter.v).  When the history is longer than
+   revisionHistoryLimit, truncateHistory deletes revisions during the rollout and after it.  The deleted names are
+   never the current or the update revision; the sorted de-duplicated list of the next revision phase is the old one
+   without the deleted names (insertion sort and the name de-duplication commute with a filter by name); and
+   getStatefulSetRevisions resolves the same current and update revision on the shorter list.  The one extra premise:
+   the update revision carries no NUMERIC hash label (hash_num = None; the names the controller generates are
+   safe-encoded and never parse as a decimal number).  Without it EqualRevision is not transitive, the revision that
+   made the update revision "equal" can be truncated away, and the next round creates a fresh update revision —
+   so the premise is needed for the statement with a fixed update revision, not an artefact of the proof. *)
+Theorem C02_full_model_converges_any_history :
+  forall hashes s0 upd cnt r slots,
+    0 <= cnt <= max_i32 + 1 -> s_deleting s0 = false -> NoDup (s_claims s0) -> s_rolling s0 <> None ->
+    get_paused (s_pause s0) = false -> s_selector s0 = SelOk ->
+    s_replicas s0 = Some r -> extend r (get_slots (s_slots s0)) = (cnt, slots) ->
+    NoDup (flat_map (fun j => map (fun t => claim_name t (s_name s0) j) (s_claims s0)) (ordinals_of cnt slots)) ->
+    s_rhl s0 <> None ->
+    forall (Wd : nat -> world), (forall k, Wd (S k) = env_round hashes (Wd k)) ->
+    forall st0 rv0 rcur0 rupd coll,
+    w_set (Wd O) = Some (set_status s0 st0 rv0) ->
+    wf s0 cnt slots (w_pods (Wd O)) -> NoDup (w_pods (Wd O)) -> all_claimed s0 (w_pods (Wd O)) ->
+    nothing_to_adopt (Wd O) s0 = true ->
+    gsr_value hashes (set_status s0 st0 rv0) (sort_revs (lrevs (Wd O) s0)) = Some (rcur0, rupd, coll) ->
+    upd = rinfo_of rupd ->
+    hash_num rupd = None ->
+    exists k, Z.of_nat k <= mu s0 upd cnt slots (w_pods (Wd O))
+      /\ forall m, (k <= m)%nat ->
+           pods_converged s0 upd cnt slots (w_pods (Wd m)) /\ same_members (w_pods (Wd m)) (w_pods (Wd k))
+           /\ forall cur, plan_acts s0 cur upd cnt slots (w_pods (Wd m)) = [].
+Proof. exact full_model_converges_any_history. Qed.
+Print Assumptions C02_full_model_converges_any_history.
+
+(* (3k) ... AND THEN QUIET, for a history of any length.  Two rounds after the plan has become empty: the first of
+   them may still truncate (the old current revision stops being referenced once the status names the update
+   revision), the second finds the same live names and nothing left to delete (removing the names of the first n
+   entries of a list with distinct names leaves the rest).  Extra premise: revisionHistoryLimit is not negative
+   (API validation; with a negative limit the Go code slices history[:len - limit] out of range). *)
+Theorem C02_full_model_any_history_goes_quiet :
+  forall hashes s0 upd cnt r slots,
+    0 <= cnt <= max_i32 + 1 -> s_deleting s0 = false -> NoDup (s_claims s0) -> s_rolling s0 <> None ->
+    get_paused (s_pause s0) = false -> s_selector s0 = SelOk ->
+    s_replicas s0 = Some r -> extend r (get_slots (s_slots s0)) = (cnt, slots) ->
+    NoDup (flat_map (fun j => map (fun t => claim_name t (s_name s0) j) (s_claims s0)) (ordinals_of cnt slots)) ->
+    s_rhl s0 <> None ->
+    forall (Wd : nat -> world), (forall k, Wd (S k) = env_round hashes (Wd k)) ->
+    forall st0 rv0 rcur0 rupd coll,
+    w_set (Wd O) = Some (set_status s0 st0 rv0) ->
+    wf s0 cnt slots (w_pods (Wd O)) -> NoDup (w_pods (Wd O)) -> all_claimed s0 (w_pods (Wd O)) ->
+    nothing_to_adopt (Wd O) s0 = true ->
+    gsr_value hashes (set_status s0 st0 rv0) (sort_revs (lrevs (Wd O) s0)) = Some (rcur0, rupd, coll) ->
+    upd = rinfo_of rupd ->
+    hash_num rupd = None ->
+    (forall l, s_rhl s0 = Some l -> 0 <= l) ->
+    exists k, Z.of_nat k <= mu s0 upd cnt slots (w_pods (Wd O)) + 2
+      /\ forall m, (k <= m)%nat ->
+           pods_converged s0 upd cnt slots (w_pods (Wd m))
+           /\ quietb hashes (Wd m) (Wd m) = true.
+Proof. exact full_model_any_history_goes_quiet. Qed.
+Print Assumptions C02_full_model_any_history_goes_quiet.
+
+(* (3l) ... and the stored status, for a history of any length *)
+Theorem C02_full_model_any_history_stored_status :
+  forall hashes s0 upd cnt r slots,
+    0 <= cnt <= max_i32 + 1 -> s_deleting s0 = false -> NoDup (s_claims s0) -> s_rolling s0 <> None ->
+    get_paused (s_pause s0) = false -> s_selector s0 = SelOk ->
+    s_replicas s0 = Some r -> extend r (get_slots (s_slots s0)) = (cnt, slots) ->
+    NoDup (flat_map (fun j => map (fun t => claim_name t (s_name s0) j) (s_claims s0)) (ordinals_of cnt slots)) ->
+    s_rhl s0 <> None ->
+    forall (Wd : nat -> world), (forall k, Wd (S k) = env_round hashes (Wd k)) ->
+    forall st0 rv0 rcur0 rupd coll,
+    w_set (Wd O) = Some (set_status s0 st0 rv0) ->
+    wf s0 cnt slots (w_pods (Wd O)) -> NoDup (w_pods (Wd O)) -> all_claimed s0 (w_pods (Wd O)) ->
+    nothing_to_adopt (Wd O) s0 = true ->
+    gsr_value hashes (set_status s0 st0 rv0) (sort_revs (lrevs (Wd O) s0)) = Some (rcur0, rupd, coll) ->
+    upd = rinfo_of rupd ->
+    hash_num rupd = None ->
+    0 <= r -> r + Z.of_nat (length (get_slots (s_slots s0))) <= max_i32 ->
+    exists k, Z.of_nat k <= mu s0 upd cnt slots (w_pods (Wd O)) + 1
+      /\ forall m, (k <= m)%nat ->
+           exists s, w_set (Wd m) = Some s /\ st_replicas (s_status s) = r /\ st_ready (s_status s) = r.
+Proof. exact full_model_any_history_stored_status. Qed.
+Print Assumptions C02_full_model_any_history_stored_status.
+
+(* non-vacuity of (3j): revisionHistoryLimit 0 and two unreferenced old revisions; the history is truncated after the
+   first round and again after the rollout, and the theorem gives convergence within mu = 6 rounds *)
+Example C02_ex_any_history :
+  (exists k, Z.of_nat k <= 6
+    /\ forall m, (k <= m)%nat -> pods_converged ty_set rx_upd 4 [1] (w_pods (ty_W m))
+                                /\ forall cur, plan_acts ty_set cur rx_upd 4 [1] (w_pods (ty_W m)) = [])
+  /\ map r_name (w_revs (ty_W 0)) = ["web-a"; "web-b"; "web-h1"; "web-h2"]%string
+  /\ map r_name (w_revs (ty_W 1)) = ["web-h1"; "web-h2"]%string
+  /\ map r_name (w_revs (ty_W 8)) = ["web-h2"]%string.
+Proof. split; [exact ty_converges|]. destruct ty_truncates as (A & B & C & _). repeat split; assumption. Qed.
+Example C02_ex_any_history_goes_quiet :
+  exists k, Z.of_nat k <= 8
+    /\ forall m, (k <= m)%nat -> pods_converged ty_set rx_upd 4 [1] (w_pods (ty_W m)) /\ quietb ex_hashes (ty_W m) (ty_W m) = true.
+Proof. exact ty_goes_quiet. Qed.
+
 (* non-vacuity of (3e)-(3g): a concrete world whose fair rounds are all regular (RoundExample.v; rx_converges_closed
    instantiates (3g) from the initial world alone): an outdated pod, a pod
    in a delete slot, a failed pod, ordinal 3 vacant; the theorem gives convergence within mu = 6 rounds *)
@@ -315,17 +412,17 @@ Example C02_ex_quiet :
   quietb ex_hashes w w = true.
 Proof. vm_compute. reflexivity. Qed.
 
-(* (4) WHAT IS NOT PROVED.  (3h) is the property over the full reconcile + environment model for a REGULAR initial
-   world (in sync, nothing to adopt, every pod claimed and well-formed, the update revision in place) whose revision list is within revisionHistoryLimit.  Not proved in Coq: the phase
-   BEFORE regularity — the chaotic prefix of a history (faults, lagging caches, adoption of orphans, creation of
-   the update revision, pods not yet settled), after which the fair suffix starts from whatever world it left;
-   and revision lists longer than the limit (a truncation in mid-rollout changes the list the next revision
-   phase sorts; (3f) then assumes the quiet revision phase per round).  Both are decided on the implementation by
-   props/c02.py on every generated history (chaotic prefix of reconciles, kubelet events, partial cache
-   refreshes, transient faults, edits that stop; then the fair suffix): the set must be converged, the status
-   must be the census, and the last two reconciles must issue no write; the environment model Env.v is compared
-   with the real world after every operation inside coqc, and round_check / regularb / quietb are evaluated
-   inside coqc on the worlds of every history at its round boundaries and at its end. *)
+(* (4) WHAT IS NOT PROVED.  (3h)/(3k) are the property over the full reconcile + environment model for a REGULAR
+   initial world (in sync, nothing to adopt, every pod claimed and well-formed, the update revision in place);
+   (3j)-(3l) remove the bound on the revision list at the price of one premise on the update revision's hash label.
+   Not proved in Coq: the phase BEFORE regularity — the chaotic prefix of a history (faults, lagging caches, adoption
+   of orphans, creation of the update revision, pods not yet settled), after which the fair suffix starts from
+   whatever world it left.  It is decided on the implementation by props/c02.py on every generated history (chaotic
+   prefix of reconciles, kubelet events, partial cache refreshes, transient faults, edits that stop; then the fair
+   suffix): the set must be converged, the status must be the census, and the last two reconciles must issue no
+   write; the environment model Env.v is compared with the real world after every operation inside coqc, and
+   round_check / regularb / quietb are evaluated inside coqc on the worlds of every history at its round boundaries
+   and at its end. *)
 Theorem C02_converges_partial_example :
   (* a concrete history in the model: scale-in at slot 1 with Parallel converges in two rounds and is then quiet *)
   let s := ex_set 3 (Some "[1]"%string) "Parallel" 1 0 (ex_status 3 "web-h1" "web-h1") in
